@@ -303,3 +303,34 @@ func HarnessC15MultiRepo() {
 		verifCheckf(verifC10Digest(errs, p) == single[k], "file-filtered-by-another-repository's-configuration", p)
 	}
 }
+
+// HarnessC15IgnoreItems: the `ignore` list of a `paths` entry in actionlint.yaml
+// as written by the user: plain string, quoted string, alias of an anchored
+// string, empty item, nested sequence, mapping. A string item (an alias
+// included) becomes exactly that pattern; anything else is a configuration
+// error — it must not become a pattern that matches every message.
+func HarnessC15IgnoreItems() {
+	items := []struct {
+		yaml string
+		pat  string // "" = not a string: configuration error expected
+	}{
+		{"foo bar", "foo bar"}, {"'quoted'", "quoted"}, {"*lbl", "label text"}, {"", ""}, {"[a, b]", ""}, {"{a: b}", ""}, {"~", ""},
+	}
+	it := items[verifChoose("item", len(items))]
+	src := "self-hosted-runner:\n  labels:\n    - &lbl label text\npaths:\n  \"**/*.yml\":\n    ignore:\n      - " + it.yaml + "\n"
+	cfg, err := ParseConfig([]byte(src))
+	verifReach("parsed")
+	if it.pat == "" {
+		verifCheckf(err != nil, "ignore-item-that-is-not-a-string-matches-everything", it.yaml)
+		return
+	}
+	verifCheckf(err == nil, "string-ignore-item-rejected", it.yaml)
+	if err != nil {
+		return
+	}
+	pc := cfg.Paths["**/*.yml"]
+	verifCheck(len(pc.Ignore) == 1, "ignore-item-lost")
+	if len(pc.Ignore) == 1 {
+		verifCheckf(pc.Ignore[0].String() == it.pat, "ignore-item-is-not-the-pattern-written", pc.Ignore[0].String())
+	}
+}
